@@ -18,6 +18,8 @@ import FluteModel.Spec.Wire
     ntp <µs>                                         system_time_to_ntp             → ok <ntp> | PANIC
     untp <ntp>                                       ntp_to_system_time             → ok <µs> | ERR | PANIC
     rfc <hex>                                        independent RFC decoder (Spec) → ok <canonical fields> | ERR
+    rewidth <hex> <c> <s> <o> <h>                    independent RFC decoder + encoder (Spec): the same packet with its
+                                                     LCT header re-serialised at other width flags → ok <hex> | ERR
   oti = <fec> <inst> <B> <E> <parity> <ss> <inband>,  ss = - | rs:<m>:<g> | rq:<z>:<n>:<al> | r:<z>:<n>:<al>
 -/
 namespace Flute.Drv.Wire
@@ -149,6 +151,13 @@ def step (args : List String) : String :=
     match nat? n with
     | some n => if n < 2^64 then showOut toString (ntpToSystemTime n) else "bad-op"
     | none => "bad-op"
+  | ["rewidth", hx, c, s, o, h] =>
+    match unhex hx, nats? [c, s, o, h] with
+    | some d, some [c, s, o, h] =>
+      match Flute.Spec.Wire.rewidth d c s o h with
+      | some r => "ok " ++ hex r
+      | none => "ERR"
+    | _, _ => "bad-op"
   | ["rfc", h] =>
     match unhex h with
     | some d => Flute.Spec.Wire.showDecode d
